@@ -155,6 +155,20 @@ fn vf_config_value_spellings() {
             (Err(e), _) => { bad += 1; println!("VF-FAIL configuration #{} (plain spelling) :: a valid configuration was rejected: {} (C18)", di, e); }
         }
     }
+    // key order inside an object is not part of the value: names that differ only in letter case are different names, in either order
+    {
+        checked += 1;
+        let a = r#"{"targets":[{"path":"app"}],"sequences":{"CI":["build"],"ci":["lint","test"],"Dev":["x"]}}"#;
+        let b = r#"{"sequences":{"Dev":["x"],"ci":["lint","test"],"CI":["build"]},"targets":[{"path":"app"}]}"#;
+        let (pa, pb) = (td.path().join("order_a.json"), td.path().join("order_b.json"));
+        std::fs::write(&pa, a).unwrap(); std::fs::write(&pb, b).unwrap();
+        match (Config::new(&pa), Config::new(&pb)) {
+            (Ok(x), Ok(y)) => { let (mut jx, mut jy) = (serde_json::to_value(&x).unwrap(), serde_json::to_value(&y).unwrap()); for j in [&mut jx, &mut jy] { if let Some(o) = j.as_object_mut() { o.remove("checksum"); } }
+                let n = jx["sequences"].as_object().map(|o| o.len()).unwrap_or(0);
+                if jx != jy || n != 3 { bad += 1; println!("VF-FAIL one configuration value with its `sequences` keys (\"CI\", \"ci\", \"Dev\") written in two orders :: read as {} and {} ; the order of keys must not matter and all three names must survive (C18)", jx["sequences"], jy["sequences"]); } }
+            (a, b) => { bad += 1; println!("VF-FAIL one configuration value with its `sequences` keys written in two orders :: rejected: {:?} / {:?} (C18)", a.err().map(|e| e.to_string()), b.err().map(|e| e.to_string())); }
+        }
+    }
     println!("VF-SUMMARY test=config_value_spellings checked={} nontrivial={} bad={}", checked, checked, bad);
 }
 
